@@ -224,6 +224,9 @@ func gen(c *ex.Ctx) {
 	// `if` carry their guard ("if <cond>: <entry>"); anything else that could matter is listed too
 	// ("assign …", "call …", "defer …") and an unrecognised shape becomes "unknown: …" (the facts_*
 	// theorems then fail) - the extractor itself never stops
+	// local aliases `x := <expr>` whose only use is as the argument of a write are substituted, so that
+	// `s := decset(m); vx.tw.WriteString(s)` reads as `write decset(m)`
+	alias := map[string]string{}
 	var stmtEntries func(stmts []ast.Stmt, guard string, strict bool) []string
 	stmtEntries = func(stmts []ast.Stmt, guard string, strict bool) []string {
 		var out []string
@@ -237,6 +240,22 @@ func gen(c *ex.Ctx) {
 			var call *ast.CallExpr
 			switch s := st.(type) {
 			case *ast.AssignStmt:
+				if strict && s.Tok == token.DEFINE && len(s.Lhs) == 1 && len(s.Rhs) == 1 {
+					pure := false
+					switch r := s.Rhs[0].(type) {
+					case *ast.BasicLit, *ast.Ident:
+						pure = true
+					case *ast.CallExpr:
+						switch c.Src(r.Fun) {
+						case "decset", "decrst", "decrqm", "tparm", "xtgettcap", "fmt.Sprintf":
+							pure = true
+						}
+					}
+					if id, ok := s.Lhs[0].(*ast.Ident); ok && id.Name != "_" && pure {
+						alias[id.Name] = c.Src(s.Rhs[0])
+						continue
+					}
+				}
 				if len(s.Rhs) == 1 {
 					call, _ = s.Rhs[0].(*ast.CallExpr)
 				}
@@ -272,7 +291,11 @@ func gen(c *ex.Ctx) {
 			src := c.Src(call.Fun)
 			switch {
 			case src == "vx.tw.WriteString" && len(call.Args) == 1:
-				add("write " + c.Src(call.Args[0]))
+				arg := c.Src(call.Args[0])
+				if a, ok := alias[arg]; ok {
+					arg = a
+				}
+				add("write " + arg)
 			case src == "fmt.Fprintf" && len(call.Args) >= 2 && c.Src(call.Args[0]) == "vx.tw":
 				var as []string
 				for _, x := range call.Args[1:] {
